@@ -118,20 +118,67 @@ fn from_js_str_radix(src: JsStr<'_>, radix: u8) -> Option<f64> {
         if digit < radix { Some(digit) } else { None }
     }
 
-    let src = src
-        .iter()
-        .map(|x| u8::try_from(x).expect("should be ascii string"));
+    /// Correctly rounded value of a digit string in a power-of-two radix: keeps the leading 64
+    /// significant bits plus a sticky bit, so the single `u64 -> f64` conversion rounds the exact
+    /// value exactly once.
+    fn pow2_radix_to_f64(digits: impl Iterator<Item = u8>, radix: u8) -> f64 {
+        let bits_per_digit = radix.trailing_zeros();
+        let mut mantissa: u64 = 0;
+        let mut dropped: i32 = 0;
+        let mut sticky = false;
+        for digit in digits {
+            for shift in (0..bits_per_digit).rev() {
+                let bit = u64::from((digit >> shift) & 1);
+                if mantissa >> 63 == 0 {
+                    mantissa = (mantissa << 1) | bit;
+                } else {
+                    dropped = dropped.saturating_add(1);
+                    sticky |= bit != 0;
+                }
+            }
+        }
+        if sticky {
+            mantissa |= 1;
+        }
+        if dropped > 1100 {
+            return f64::INFINITY;
+        }
+        let mut value = mantissa as f64;
+        while dropped > 0 {
+            let step = dropped.min(1000);
+            value *= 2f64.powi(step);
+            dropped -= step;
+        }
+        value
+    }
 
-    let result = if can_not_overflow(radix, src.len()) {
+    let bytes = src
+        .iter()
+        .map(|x| u8::try_from(x).expect("should be ascii string"))
+        .collect::<Vec<u8>>();
+    let digits = bytes
+        .iter()
+        .map(|&c| to_digit(c, radix))
+        .collect::<Option<Vec<u8>>>()?;
+
+    let result = if can_not_overflow(radix, digits.len()) {
         let mut result = 0;
-        for c in src {
-            result = result * u64::from(radix) + u64::from(to_digit(c, radix)?);
+        for &d in &digits {
+            result = result * u64::from(radix) + u64::from(d);
         }
         result as f64
+    } else if radix == 10 {
+        // Up to 20 significant digits have to be exact: let the correctly rounding decimal parser
+        // do the work (the input consists of decimal digits only).
+        fast_float2::parse::<f64, _>(&bytes).ok()?
+    } else if radix.is_power_of_two() {
+        // mathInt must be exact for radix 2, 4, 8, 16 and 32.
+        pow2_radix_to_f64(digits.iter().copied(), radix)
     } else {
+        // Other radices may be implementation-approximated.
         let mut result = 0f64;
-        for c in src {
-            result = result * f64::from(radix) + f64::from(to_digit(c, radix)?);
+        for &d in &digits {
+            result = result * f64::from(radix) + f64::from(d);
         }
         result
     };
